@@ -539,7 +539,7 @@ def population(ctx):
     for nm in ("f14", "blocks", "time"):
         S = corner_case(nm)
         cases.append(Case("corner:" + nm, sgt.to_yaml(S), S))
-    n = 220 if q else 2400
+    n = 150 if q else 1500
     for i in range(n):
         S = sgt.gen(rng, rich=True)
         cases.append(Case("generated", sgt.to_yaml(S), S))
@@ -569,6 +569,9 @@ def corner_case(which):
 
 
 def run(ctx):
+    import time
+    t0 = time.time()
+    phases = {}
     rng = ctx.rng
     stats = {"literal_model_matches": 0, "divisors_checked": 0, "divisor_not_literal": 0, "executions": 0, "level_names": 0}
     lv_exprs, judge_names = check_level_names(ctx, rng, stats)
@@ -587,8 +590,11 @@ def run(ctx):
             rejected[c.err] = rejected.get(c.err, 0) + 1
             continue
         good.append(c)
+    phases["compile_and_translate_s"] = round(time.time() - t0, 1)
+    t0 = time.time()
     exprs = [c.expr for c in good] + lv_exprs
     res = vlib.coq_eval_lines("c14", IMPORTS, "", exprs, shard=max(10, -(-len(exprs) // 12)), big_stack=False)
+    phases["kernel_evaluation_s"] = round(time.time() - t0, 1)
     judge_names(res[len(good):])
     res = res[:len(good)]
     n_bad = 0
@@ -643,6 +649,7 @@ def run(ctx):
         "literal_model_matches": "%d/%d" % (stats["literal_model_matches"], len(good)),
         "distinct_nontrivial": len(seen),
         "distribution": dist,
+        "phase_seconds": phases,
         "rule": "accelerator YAMLs of tests/integration (static checks: validator on the code's blocks, divisors from the raw level names) + "
                 "3 hand-written corner cases (F14 witness; Einsums named `blocks`, `time`) + seeded cascades of 1-4 Einsums over 1-3 generated "
                 "configurations (DRAM, optional cache/buffet L2, 1-2 buffets, intersector of each type, mul/add, sequencer, merger; levels "
